@@ -7,6 +7,7 @@ activity / environment event happens next.
 """
 import datetime as _dt
 import itertools
+import os
 import sys
 import threading as _th
 import traceback
@@ -48,6 +49,7 @@ class _Worker:
     execution otherwise). A worker is busy from the moment an activity starts until it finishes (it stays parked inside
     yield_blocked while the activity is blocked)."""
     idle = []
+    pid = None
 
     def __init__(self):
         self.sem = _th.Semaphore(0)
@@ -57,6 +59,10 @@ class _Worker:
 
     @classmethod
     def get(cls):
+        # worker threads do not survive a fork: forget the ones created by another process
+        if cls.pid != os.getpid():
+            cls.pid = os.getpid()
+            cls.idle = []
         return cls.idle.pop() if cls.idle else cls()
 
     def loop(self):
